@@ -12,7 +12,7 @@ use common::*;
 use std::process::exit;
 
 fn registry() -> Vec<Box<dyn Check>> {
-    vec![Box::new(checks::c01::C01), Box::new(checks::c02::C02), Box::new(checks::c03::C03), Box::new(checks::c04::C04), Box::new(checks::c05::C05), Box::new(checks::c06::C06), Box::new(checks::c07::C07)]
+    vec![Box::new(checks::c01::C01), Box::new(checks::c02::C02), Box::new(checks::c03::C03), Box::new(checks::c04::C04), Box::new(checks::c05::C05), Box::new(checks::c06::C06), Box::new(checks::c07::C07), Box::new(checks::c08::C08), Box::new(checks::c09::C09), Box::new(checks::c11::C11), Box::new(checks::c12::C12)]
 }
 
 fn find(id: &str) -> Box<dyn Check> {
@@ -113,6 +113,7 @@ fn main() {
             Tier::Thorough => 16,
         };
     }
+    SEED.store(seed, std::sync::atomic::Ordering::Relaxed);
     let check = find(&id);
     let known = Known::load();
     for (p, _s, text) in &known.sigs {
